@@ -184,4 +184,21 @@ def bitsToRegionsOpt (bits : Option Nat) (mapping : List (String × Nat)) : Opti
   | none => some none
   | some b => (bitsToRegions b mapping).map some
 
+/-! ### the caller: the per-job `regions` block of `_create_jobs` (batch/batch/front_end/front_end.py) -/
+
+/-- What one iteration of `for spec in job_specs` stores in the job's row for its region preference:
+`(n_regions, regions_bits_rep)`; `none` = `HTTPBadRequest` (unknown region, empty list), which rejects the request.
+A job without the `regions` key gets `(NULL, NULL)` — its own `else:` branch, whatever the jobs before it asked for. -/
+def jobRegions (mapping : List (String × Nat)) : Option (List String) → Option (Option Nat × Option Nat)
+  | none => some (none, none)                                       -- else: n_regions = None; regions_bits_rep = None
+  | some regions =>
+    if regions.any (fun r => (mapping.lookup r).isNone) then none   -- 'invalid regions specified'
+    else if regions.isEmpty then none                               -- 'regions must not be an empty array'
+    else (regionsToBits regions mapping).map fun b => (some regions.length, some b)
+
+/-- one call of `_create_jobs` on a bunch: the block runs once per job and carries nothing from one job to the next -/
+def bunchRegions (mapping : List (String × Nat)) (jobs : List (Option (List String))) :
+    Option (List (Option Nat × Option Nat)) :=
+  jobs.mapM (jobRegions mapping)
+
 end HailVerif.SpecFormat
